@@ -116,4 +116,19 @@ PROPS = {
                  thorough=dict(checks=6000, shards=16, budget_s=3000, shrink="2m")),
         ],
     ),
+    "C07": dict(
+        level="exploration",
+        text="Exploration by grammar-based generated search: a hostile scripted peer sends generated message sequences (every message type, field-type substitutions, absurd semantics, "
+             "truncations, oversize, lying stream frames) to a real node before and after the handshake, on a datagram link and on receptor's stream framing; the executor process is "
+             "crash-contained, and after the hostile session ends the node must answer Status(), serve its old peer, accept a fresh peer and route between them.",
+        note="Trusted: the in-memory link / chunking stream of the harness. Liveness is judged after the hostile session has ended (while it is connected a lying peer may legitimately attract "
+             "traffic); the real TCP/UDP/websocket listeners are covered by the thorough-tier transports when present.",
+        technique="grammar-based property testing (rapid) with process-level crash containment; robustness oracle = liveness + routing probes through the node",
+        assumptions=["forged updates about the well-behaved nodes never carry their real start epoch (24 random bits + time: not guessable by the generator)"],
+        parts=[
+            part("peer", "netprops", "TestC07", "C07",
+                 quick=dict(checks=160, shards=8, budget_s=420),
+                 thorough=dict(checks=8000, shards=16, budget_s=3300, shrink="3m")),
+        ],
+    ),
 }
